@@ -494,10 +494,15 @@ script_end:
         bool trav_ok = all_ok && p.error_flags == BINSON_ERROR_NONE;
         CHECK(!trav_ok || rv == RV_OK, "C08 traversal succeeded => verify accepts the same bytes");
         CHECK(!(rv == RV_OK) || trav_ok, "C08 verify accepts => the protocol-following traversal succeeds");
-#ifndef WIT_REJECT
+#if !defined(WIT_REJECT) && !defined(WIT_REJECT2)
         COVER(trav_ok && executed == SLEN, "main: complete traversal of an accepted document");
 #endif
+
     }
+#ifdef WIT_REJECT2
+    /* no valid document of this size exists: every op was issued, the final leave (or an earlier call) must report the defect */
+    COVER(executed == SLEN && (!all_ok || p.error_flags != BINSON_ERROR_NONE) && rv != RV_OK, "main: traversal issued completely, reports a failure, reference rejects");
+#endif
 #ifdef WIT_REJECT
     /* documents of this query can never be accepted (e.g. nested deeper than the state array) */
     COVER(executed >= 1 && p.error_flags != BINSON_ERROR_NONE && rv != RV_OK, "main: traversal stopped by an error, reference rejects");
